@@ -1450,6 +1450,80 @@ fn main() {
         rep.sample(J::s("N# = 4937 : D# = 4 : X# = N# / D# : PRINT STR$(X#); \"|\"; VAL(STR$(X#)) -> ` 1234.25| 1234.25`, Val# = VDouble(1234.25) = model"));
     }
     eprintln!("[c17] valstr fractions done at {:?}", t0.elapsed());
+
+    // ---- 7. VAL beyond what a DOUBLE can hold (outside the fragment of RbModel/StrVal.lean: texts > 300 characters) ----
+    // More digits in front of the point than a DOUBLE has room for (from 310 digits on the value is an infinity) and
+    // digits so far behind the point that 10 ^ n is an infinity (n >= 309): since /repo 1b55932 VAL raises Overflow (6)
+    // for the former and leaves the value as it is for the latter; before, VAL returned an infinity / a NaN.
+    // Oracle (the property, no model): Rust's correctly rounded decimal parser on the same text — Overflow exactly
+    // when that is an infinity, otherwise a finite DOUBLE within 1e-12 relative (one rounding per digit) of it.
+    {
+        let mut n_long = 0u64;
+        let digits: Vec<usize> = if thorough { vec![1, 17, 22, 23, 100, 299, 300, 301, 307, 308, 309, 310, 311, 400, 1000, 5000] } else { vec![22, 23, 300, 307, 308, 309, 310, 400, 1000] };
+        for &n in &digits {
+            let zeros = "0".repeat(n);
+            let ones = "1".repeat(n);
+            let nines = "9".repeat(n);
+            let texts: Vec<String> = vec![
+                format!("1{}", zeros),
+                format!("-1{}", zeros),
+                format!("17{}", zeros),
+                format!("18{}", zeros),
+                nines.clone(),
+                format!("{}.{}", nines, ones),
+                format!(".{}", ones),
+                format!("-.{}5", zeros),
+                format!("0.{}1", zeros),
+                format!("99999999.{}", ones),
+                format!("1{}.{}", zeros, nines),
+                format!(" + 1 {} . {}", zeros, ones),
+            ];
+            for t in texts {
+                n_long += 1;
+                programs += 1;
+                rep.case(Some(format!("val-long:{}:{}", n, &t[..t.len().min(12)])));
+                rep.bump("val.long-text");
+                let text = format!("PRINT VAL(\"{}\")\n", t);
+                let (ran, vals) = run_program_val(&text, 100_000);
+                // the text as a decimal number: blanks are skipped by VAL, a leading sign is kept
+                let cleaned: String = t.chars().filter(|c| *c != ' ').collect();
+                let want: f64 = cleaned.parse::<f64>().unwrap_or(f64::NAN);
+                let shown = if t.len() > 60 { format!("PRINT VAL(\"{}...{}\")  [{} characters, {} digits in the repeated part]", &t[..20], &t[t.len() - 12..], t.len(), n) } else { text.clone() };
+                let verdict: Result<(), String> = match (&ran, vals.first()) {
+                    (Ran::Panic, _) => Err("panic".into()),
+                    (Ran::FrontEnd(e), _) => Err(format!("front end: {}", e)),
+                    (Ran::Done { err: Some(6), .. }, _) => {
+                        if want.is_infinite() { rep.bump("val.long-text.overflow"); Ok(()) } else { Err("Overflow (6)".into()) }
+                    }
+                    (Ran::Done { err: Some(c), .. }, _) => Err(format!("runtime error {}", c)),
+                    (Ran::Done { err: None, .. }, Some(Variant::VDouble(got))) => {
+                        if !got.is_finite() {
+                            Err(format!("VAL returned {:?}", got))
+                        } else if want.is_infinite() {
+                            Err(format!("VAL returned {:?} for a number beyond the DOUBLE range", got))
+                        } else if (got - want).abs() <= 1e-12 * want.abs() + 1e-300 {
+                            rep.bump("val.long-text.value");
+                            Ok(())
+                        } else {
+                            Err(format!("VAL returned {:?}", got))
+                        }
+                    }
+                    (Ran::Done { err: None, .. }, other) => Err(format!("VAL's result slot holds {:?}", other)),
+                };
+                if let Err(got) = verdict {
+                    rep.fail(Failure {
+                        kind: Kind::ImplVsProperty,
+                        signature: "val:long-text".into(),
+                        input: shown,
+                        implementation: got,
+                        expected: if want.is_infinite() { "Overflow (6): the number does not fit a DOUBLE".into() } else { format!("a finite DOUBLE within 1e-12 of {:?}", want) },
+                        note: "VAL never returns an infinity or a NaN; digits beyond the precision of a DOUBLE do not change the value".into(),
+                    });
+                }
+            }
+        }
+        rep.notes.push(format!("VAL on {} texts of up to {} digits before / behind the point (beyond the model's fragment; oracle: the correctly rounded value)", n_long, digits.last().unwrap()));
+    }
     rep.notes.push(format!("{} programs were run through the interpreter", programs));
     rep.finish();
 }
